@@ -10,6 +10,7 @@ import (
 	"regexp"
 	"sort"
 	"strings"
+	"sync"
 
 	"golang.org/x/tools/go/packages"
 	"golang.org/x/tools/go/ssa"
@@ -19,6 +20,7 @@ import (
 )
 
 var RepoRoot = "/repo"
+
 const RepoModule = "github.com/gotid/god"
 
 var VerifRoot = "/verif"
@@ -30,9 +32,9 @@ type TierSpec struct {
 	MaxPaths int            `json:"max_paths"`
 	TimeoutS int            `json:"timeout_s"`
 	OblS     int            `json:"obligation_timeout_s"`
-	PipeMs   int            `json:"pipe_timeout_ms"` // incremental-pipe cap per obligation (default 10000); small for FP-heavy harnesses
-	FeasMs   int            `json:"feas_timeout_ms"` // incremental-pipe cap per feasibility query (default 2000)
-	PipeS    int            `json:"pipe_timeout_s"` // incremental-pipe timeout per obligation (default 10); lower it for FP-heavy harnesses that only the portfolio decides
+	PipeMs   int            `json:"pipe_timeout_ms"`        // incremental-pipe cap per obligation (default 10000); small for FP-heavy harnesses
+	FeasMs   int            `json:"feas_timeout_ms"`        // incremental-pipe cap per feasibility query (default 2000)
+	PipeS    int            `json:"pipe_timeout_s"`         // incremental-pipe timeout per obligation (default 10); lower it for FP-heavy harnesses that only the portfolio decides
 	FeasMs2  int            `json:"feasibility_timeout_ms"` // same as feas_timeout_ms
 	Skip     bool           `json:"skip"`
 }
@@ -117,10 +119,7 @@ func (h *HarnessSpec) Overlay(hdir, world string) (map[string][]byte, string, ma
 		}
 		for _, d := range modelDirective.FindAllSubmatch(src, -1) {
 			stubs[string(d[1])] = string(d[2])
-			if h.modelTargets == nil {
-				h.modelTargets = map[string]bool{}
-			}
-			h.modelTargets[string(d[1])] = true
+			h.setModelTarget(string(d[1]))
 		}
 		base := strings.TrimSuffix(filepath.Base(f), ".go")
 		ov[filepath.Join(h.PkgDir(), "zz_verif_"+base+".go")] = src
@@ -132,6 +131,25 @@ func (h *HarnessSpec) Overlay(hdir, world string) (map[string][]byte, string, ma
 	rt := strings.Replace(string(tmpl), "package PKGNAME", "package "+pkgName, 1)
 	ov[filepath.Join(h.PkgDir(), "zz_verif_rt.go")] = []byte(rt)
 	return ov, pkgName, stubs, nil
+}
+
+// modelTargetsMu guards HarnessSpec.modelTargets: Overlay is called from the
+// parallel native replays of one harness.
+var modelTargetsMu sync.Mutex
+
+func (h *HarnessSpec) setModelTarget(t string) {
+	modelTargetsMu.Lock()
+	defer modelTargetsMu.Unlock()
+	if h.modelTargets == nil {
+		h.modelTargets = map[string]bool{}
+	}
+	h.modelTargets[t] = true
+}
+
+func (h *HarnessSpec) isModelTarget(t string) bool {
+	modelTargetsMu.Lock()
+	defer modelTargetsMu.Unlock()
+	return h.modelTargets[t]
 }
 
 // AdHoc reports whether the harness's package lives outside the repository's
